@@ -11,7 +11,7 @@
 //!   hz seed               (not modelled) the theorems' oracle premises on the real BGZF writer / flate2 decoder
 //!   wk wkv wp wpv ix iv vf fw dw dwf dwv dwvf   see shared/c20_dispatch.rs (models NV.Util.Dispatch, NV.Util.Fill)
 //!   aw adw adwf adwx adwv adwvf   see shared/c20_async.rs (model NV.Util.AsyncFill: the async reader builders)
-//!   cvsb cvbs   see shared/c20_convert.rs (model NV.Util.Convert: one record SAM -> BAM, BAM -> SAM)
+//!   cvsb cvbs cvf   see shared/c20_convert.rs (model NV.Util.Convert: one record SAM -> BAM, BAM -> SAM)
 //! Implementation-only oracles (the property itself, public generic builders only):
 //!   art fmt seed nrec hdr rdr      write through alignment::io::writer::Builder, read back through
 //!                                  alignment::io::reader::Builder::default() (autodetect) over reader `rdr`
@@ -52,7 +52,7 @@ fn run(c: &Case) -> Obs {
         "art" | "atx" | "acv" | "acx" | "aas" => align::run(c),
         "vrt" | "vtx" | "vcv" | "vcx" | "vas" => variant::run(c),
         "wk" | "wkv" | "wp" | "wpv" | "ix" | "iv" | "vf" | "fw" | "dw" | "dwf" | "dwv" | "dwvf" => dispatch::run(c),
-        "cvsb" | "cvbs" => convert::run(c),
+        "cvsb" | "cvbs" | "cvf" => convert::run(c),
         "aw" | "adw" | "adwf" | "adwx" | "adwv" | "adwvf" => asyncrd::run(c),
         _ => Obs::fail("-", "harness-unknown-kind", &c.kind),
     }
